@@ -1,8 +1,10 @@
 """C01 — unit conversion preserves the physical value (value-flow forms)."""
-from . import generic as G, model, spec as S, term as T, ws
+from . import generic as G, model, ovequiv, spec as S, term as T, ws
 from .model import ModelError
 
 self_ = S.P(0, "self")
+# default methods the conversion is built from, per trait
+RELEVANT = {"HasRefUnit": {"equiv_amount", "convert"}, "LinearScaledUnit": {"ratio"}, "Quantity": set()}
 
 
 def record_axioms(ctx, w, config):
@@ -141,10 +143,15 @@ def run_config(ctx, config):
                                  (model.T_QUANTITY, {"UnitType", "new", "amount", "unit"}, "Quantity")):
         ov = G.overrides(ctx, "override", U, trait, allowed, what)
         for tk, (extra, imp) in ov.items():
-            if tk in model.AMOUNT_TYPES and what == "HasRefUnit" and extra == ["_fit"]:
-                continue  # the dimensionless amount: _fit is the identity (checked in C04/C08)
+            # only the defaults conversion is built from matter here; an override of one of them is accepted when it
+            # is the default specialised to that type (ovequiv.py)
+            extra = [x for x in extra if x in RELEVANT[what]]
+            if extra:
+                extra = ovequiv.filter_equivalent(ctx, "override", config, w, what, tk, extra, imp)
+            if not extra:
+                continue
             ctx.fail("override", "%s/%s/%s" % (config, what, tk),
-                     "impl %s for %s overrides default item(s) %s — the generic analysis does not cover it" % (what, tk, extra), imp["span"])
+                     "impl %s for %s overrides default item(s) %s with something other than the default specialised to this type — the generic analysis does not cover it" % (what, tk, extra) + ovequiv.reasons(ctx, config, tk, what, extra), imp["span"])
         ctx.ob("override", "%s/%s" % (config, what), True, "")
     # 6. scale tables total, finite, positive
     for q in w.qtypes:
